@@ -11,14 +11,15 @@ import (
 
 func init() {
 	register(&PropSpec{
-		ID: "C19",
+		ID:          "C19",
 		Explanation: "Structural necessary conditions for the multi-transport. U1: the selected transport id is always a member: every store to Transport.currentTransportID outside the constructor literal is dominated by the found edge of a membership lookup of the stored value in transportMap, the constructor's initial id is validated the same way with an error on the not-found edge; or else every use transportMap[currentTransportID] is a comma-ok lookup whose not-found edge returns. U2: Close and the counters range over the whole transportMap without leaving the loop early. U3: no receiver that was just compared equal to nil is dereferenced on that edge (access-path nilness over the package). U4: one reader goroutine per member feeds the single merge queue, and Read takes from that queue only.",
-		NotDecided: []string{"routing of each write under interleaved selections", "exactly-once reads as histories"},
+		NotDecided:  []string{"routing of each write under interleaved selections", "exactly-once reads as histories"},
 		Rules: func(r *Run) {
 			ruleC19U1(r)
 			ruleC19U2(r)
 			ruleC19U3(r)
 			ruleC19U4(r)
+			ruleFreshPerSend(r, "U5", "/transport/", "/wire", "/iscp", "/internal/")
 		},
 	})
 }
